@@ -665,6 +665,18 @@ Theorem C01_generated_inputs_in_range :
     forall i, i < length xs -> (psum 4 (rvals64 (win w i xs)) < pow2 (4 * (-2) + 53))%R.
 Proof. exact generated_inputs_in_range. Qed.
 
+(* (B10) on grid data the rolling mean is the CORRECTLY ROUNDED exact mean of the window — half an ulp, whatever the
+   history (compare (B1), whose bound grows with the number of operations performed) *)
+Theorem C01_ts_vmean_correctly_rounded_on_grid :
+  forall (e : Z) (w : nat) (mp : option nat) (body : bool) (xs : list PrimFloat.float) (i : nat) (o : PrimFloat.float),
+    (-1074 <= e)%Z -> (e + 53 <= 1024)%Z -> 1 <= w -> (Z.of_nat w < 2 ^ 53)%Z ->
+    forallb (grid_check e) (fvals xs) = true ->
+    (forall j, j < length xs -> (spow 1 (rvals64 (win w j xs)) < pow2 (e + 53))%R) ->
+    nth_error (ts_out (ts_vmean_f (NA := NumF64) (DT := IsNoneF64) w mp) body w xs) i = Some o -> ffin o = true ->
+    f2r o = rnd64 (meanR (rvals64 (win w i xs))) /\
+    (Rabs (f2r o - meanR (rvals64 (win w i xs))) <= u64 * Rabs (meanR (rvals64 (win w i xs))) + eta64)%R.
+Proof. exact ts_vmean_correctly_rounded_on_grid. Qed.
+
 (* non-vacuity of (B1)-(B3): a long history (1e16 absorbs the small terms), a NaN, the mean of the last window rounds *)
 Example C01_example_mean_rounding_premises :
   exists o, nth_error (ts_out (ts_vmean_f (NA := NumF64) (DT := IsNoneF64) 2 (Some 1)) true 2 [1e16; nan; 0.1; 0.2]%float) 3
@@ -684,6 +696,13 @@ Proof.
     apply IZR_lt. reflexivity.
   - split; [discriminate|]. split; [discriminate|]. vm_compute. reflexivity.
 Qed.
+(* non-vacuity of (B10): a grid series whose window mean 100.75 / 3 is not a dyadic number; the output is finite and
+   (being rounded) not even a multiple of 2^-40 *)
+Example C01_example_grid_mean_premises :
+  forallb (grid_check (-2)) (fvals [1.25; nan; -0.75; 100.25]%float) = true /\
+  (exists o, nth_error (ts_out (ts_vmean_f (NA := NumF64) (DT := IsNoneF64) 4 (Some 1)) false 4 [1.25; nan; -0.75; 100.25]%float) 3
+             = Some o /\ ffin o = true /\ grid_check (-40) o = false).
+Proof. split; [vm_compute; reflexivity|]. eexists. repeat split; vm_compute; reflexivity. Qed.
 (* the grid premise is needed: 0.1 is not a dyadic grid point of 2^-2 and its square rounds *)
 Example C01_example_off_grid :
   grid_check (-2) 0.1%float = false /\ PrimFloat.eqb (0.1 * 0.1)%float 0.01%float = false.
@@ -748,3 +767,4 @@ Print Assumptions C01_moment_state_exact_on_grid.
 Print Assumptions C01_moment_state_exact_on_grid_all.
 Print Assumptions C01_windows_in_range_of_bound.
 Print Assumptions C01_generated_inputs_in_range.
+Print Assumptions C01_ts_vmean_correctly_rounded_on_grid.
